@@ -3,6 +3,7 @@
 use crate::runner::PropSpec;
 
 pub mod c01;
+pub mod c02;
 pub mod selftest;
 
 pub const REAL: &[&str] = &[
@@ -17,5 +18,5 @@ pub const STUB: &[&str] = &[
 ];
 
 pub fn all() -> Vec<PropSpec> {
-    vec![c01::spec()]
+    vec![c01::spec(), c02::spec()]
 }
